@@ -99,6 +99,51 @@ theorem done_of_terminal_emitted {β} (p : Plumb) (as : List (Act β))
     exact List.any_eq_true.mpr ⟨x, mem_of_mem_cut _ _ hx, hxt⟩
   · rw [emits_acts_done _ _ hd] at ht; simp at ht
 
+/-- what a handler's actions produce once the downstream observer is stopped (the returned disposable is disposed):
+nothing is emitted, nothing is live any more, and every subscription is opened and closed on the spot -/
+def lateEffs {β} : List (Act β) → List (Eff β)
+  | [] => []
+  | .sub k :: r => Eff.sub k :: Eff.unsub k :: lateEffs r
+  | _ :: r => lateEffs r
+
+/-- **late_subscriptions_closed.** After the terminal (or a dispose) every subscription the operator still opens is closed
+immediately: the effects of any further handler actions are exactly `sub k, unsub k` pairs, in program order. (In the frame
+this is `Plumb.act (.sub k)` on a stopped plumbing: the holder is disposed when it is added to the disposed container /
+assigned to the disposed SerialDisposable, the subscription when it is assigned to the holder.) -/
+theorem late_subscriptions_closed {β} (as : List (Act β)) : ∀ (p : Plumb), p.WF → p.done = true →
+    (p.acts as).2 = lateEffs as ∧ (p.acts as).1 = p := by
+  induction as with
+  | nil => intro p _ _; exact ⟨rfl, rfl⟩
+  | cons a as ih =>
+    intro p hwf hd
+    have hl := hwf hd
+    cases a with
+    | emit n =>
+      have : p.act (.emit n) = (p, []) := by simp [Plumb.act, hd]
+      simp only [Plumb.acts, this, lateEffs, List.nil_append]; exact ih p hwf hd
+    | sub k =>
+      have : p.act (β := β) (.sub k) = (p, [Eff.sub k, Eff.unsub k]) := by simp [Plumb.act, hd]
+      simp only [Plumb.acts, this, lateEffs]
+      have := ih p hwf hd
+      exact ⟨by rw [this.1]; rfl, this.2⟩
+    | unsub k =>
+      have : p.act (β := β) (.unsub k) = (p, []) := by simp [Plumb.act, hl]
+      simp only [Plumb.acts, this, lateEffs, List.nil_append]; exact ih p hwf hd
+
+/-- within the step that emits the terminal: once the terminal went out, the rest of the handler's subscriptions are
+subscribe+unsubscribe pairs (`pre` = the actions up to and including the terminal emission) -/
+theorem subscriptions_after_terminal_closed {β} (p : Plumb) (hwf : p.WF) (pre post : List (Act β))
+    (hd : (p.acts pre).1.done = true) :
+    (p.acts (pre ++ post)).2 = (p.acts pre).2 ++ lateEffs post := by
+  have h : ∀ (a b : List (Act β)) (q : Plumb), q.acts (a ++ b) = (((q.acts a).1.acts b).1, (q.acts a).2 ++ ((q.acts a).1.acts b).2) := by
+    intro a
+    induction a with
+    | nil => intro b q; simp [Plumb.acts]
+    | cons x xs ih => intro b q; simp [Plumb.acts, ih, List.append_assoc]
+  rw [h]
+  simp only
+  rw [(late_subscriptions_closed post _ (acts_WF p pre hwf) hd).1]
+
 /-! ### generic: one step -/
 
 /-- **terminal_releases_all** (any machine, any well-formed state, any event). -/
